@@ -146,11 +146,17 @@ func complitFields(v ssa.Value) (map[string]ssa.Value, *ssa.Alloc) {
 	var a *ssa.Alloc
 	if ok && u.Op == token.MUL {
 		a, _ = u.X.(*ssa.Alloc)
+		if fv, isFV := u.X.(*ssa.FreeVar); isFV {
+			a = allocOfFreeVar(fv, 0) // the literal is read inside a function literal that captures it
+		}
 	} else if al, ok2 := v.(*ssa.Alloc); ok2 {
 		a = al
 	}
 	if a == nil {
 		return nil, nil
+	}
+	if writtenThroughCapture(a, 0) {
+		return nil, nil // a function literal assigns to it or to one of its fields: not a plain literal any more
 	}
 	out := map[string]ssa.Value{}
 	for _, r := range *a.Referrers() {
@@ -169,6 +175,49 @@ func complitFields(v ssa.Value) (map[string]ssa.Value, *ssa.Alloc) {
 		}
 	}
 	return out, a
+}
+
+// writtenThroughCapture: some function literal that captures the variable stores to it or to a field of it.
+func writtenThroughCapture(a ssa.Value, depth int) bool {
+	if a.Referrers() == nil || depth > 3 {
+		return false
+	}
+	for _, rf := range *a.Referrers() {
+		mc, ok := rf.(*ssa.MakeClosure)
+		if !ok {
+			continue
+		}
+		fn, _ := mc.Fn.(*ssa.Function)
+		if fn == nil {
+			return true
+		}
+		for i, b := range mc.Bindings {
+			if b != a || i >= len(fn.FreeVars) {
+				continue
+			}
+			fv := fn.FreeVars[i]
+			for _, r2 := range *fv.Referrers() {
+				switch y := r2.(type) {
+				case *ssa.Store:
+					if y.Addr == ssa.Value(fv) {
+						return true
+					}
+				case *ssa.FieldAddr:
+					if y.Referrers() != nil {
+						for _, r3 := range *y.Referrers() {
+							if st, ok := r3.(*ssa.Store); ok && st.Addr == ssa.Value(y) {
+								return true
+							}
+						}
+					}
+				}
+			}
+			if writtenThroughCapture(fv, depth+1) {
+				return true
+			}
+		}
+	}
+	return false
 }
 
 // addrOfFieldOrCopy: v is &x.f, or the address of a local that holds a one-time copy of x.f (h := x.f; … &h).
